@@ -408,10 +408,16 @@ theorem plan_copyObject (ap : Bool) (sb sk b k : Bytes) :
     L_objChainParent hr (bw (by simp [writeBuckets])) hdst
   refine forall_withPath (by touch_list <;> solve_by_elim) fun sm hsm => ?_
   have h5 : P e enc (.copyObject ap sb sk b k) ⟨.read, .path sm⟩ :=
-    L_name hr (good_metadataName he sb sk (by simp)) (.inl ⟨rfl, rfl⟩) hsm
+    L_name hr (good_metadataName he sb sk (by simp)) (.inl ⟨rfl, .inl rfl⟩) hsm
   refine forall_withPath (by touch_list <;> solve_by_elim) fun dm hdm => ?_
   have h6 : ∀ acc, P e enc (.copyObject ap sb sk b k) ⟨acc, .path dm⟩ :=
-    fun _ => L_name hr (good_metadataName he b k (by simp)) (.inr rfl) hdm
+    fun _ => L_name hr (good_metadataName he b k (by simp)) (.inr (.inl rfl)) hdm
+  refine forall_withPath (by touch_list <;> solve_by_elim) fun si hsi => ?_
+  have h7 : P e enc (.copyObject ap sb sk b k) ⟨.read, .path si⟩ :=
+    L_name hr (good_internalInfoName he sb sk) (.inl ⟨rfl, .inr rfl⟩) hsi
+  refine forall_withPath (by touch_list <;> solve_by_elim) fun di hdi => ?_
+  have h8 : ∀ acc, P e enc (.copyObject ap sb sk b k) ⟨acc, .path di⟩ :=
+    fun _ => L_name hr (good_internalInfoName he b k) (.inr (.inr rfl)) hdi
   touch_list <;> solve_by_elim
 
 theorem plan_putObject (b k : Bytes) (hasBody hasMeta scOk lenPos : Bool) (c : Nat) :
